@@ -263,6 +263,27 @@ func (p *Proc) evalIdent(ec *ectx, id *ast.Ident) Val {
 			if gt, ok := p.ctx.dirs.GhostVars[id.Name]; ok {
 				return p.ghostVar(ec, id.Name, gt)
 			}
+			if v, ok := p.lets[id.Name]; ok {
+				return v
+			}
+			if strings.HasPrefix(id.Name, "rangeidx") {
+				if n, err := strconv.Atoi(id.Name[8:]); err == nil {
+					if o := p.rangeIdx[n]; o != nil {
+						if t, ok := ec.st.vars[o]; ok {
+							return Val{T: t, Typ: o.Type()}
+						}
+					}
+				}
+			}
+			if strings.HasPrefix(id.Name, "visited") {
+				if n, err := strconv.Atoi(id.Name[7:]); err == nil {
+					if o := p.visited[n]; o != nil {
+						if t, ok := ec.st.vars[o]; ok {
+							return Val{T: t, Typ: o.Type()}
+						}
+					}
+				}
+			}
 		}
 		obj = p.lookupName(ec, id.Name, ec.pos)
 	}
@@ -480,8 +501,8 @@ func namedOf(t types.Type) *types.Named {
 
 // wfAssume adds well-formedness facts for freshly read values.
 func (p *Proc) wfAssume(st *State, v Val) {
-	if v.T == nil || v.Typ == nil {
-		return
+	if v.T == nil || v.Typ == nil || hasBound(v.T.S) {
+		return // terms over quantifier-bound variables get no side facts
 	}
 	switch v.T.Sort {
 	case SSlice:
@@ -946,7 +967,7 @@ func (p *Proc) strEqLitFact(ec *ectx, s, lit *Term, v string) *Term {
 		return BoolLit(p.ctx.litVal(s.S) == v)
 	}
 	pw := p.ctx.strEqLit(s, v)
-	if len(v) <= 64 && !ec.noFacts {
+	if len(v) <= 64 && !ec.noFacts && !hasBound(s.S) {
 		ec.st.assume(Eq(App("streq", SBool, s, lit), pw))
 	}
 	return pw
@@ -1003,6 +1024,9 @@ func (p *Proc) indexVal(ec *ectx, base, idx Val, n ast.Node) Val {
 		return Val{T: Sel(base.T, i), Typ: bt.Elem()}
 	case *types.Map:
 		k := p.convert(ec, idx, bt.Key())
+		if strings.HasPrefix(string(base.T.Sort), "(Array") {
+			return Val{T: Sel(base.T, k), Typ: bt.Elem()}
+		}
 		v, _ := p.mapLookup(ec, base, k)
 		return v
 	}
@@ -1178,3 +1202,8 @@ func (p *Proc) resolveType(ec *ectx, e ast.Expr) types.Type {
 }
 
 var _ = constant.MakeInt64
+
+// hasBound reports whether a rendered term mentions a quantifier-bound variable.
+func hasBound(s string) bool {
+	return strings.Contains(s, "!q") || strings.Contains(s, "!l") || strings.Contains(s, "a!")
+}
